@@ -10,3 +10,4 @@ CONSTANTS
   Resizes <- PrintResizes
   MaxDepth = 4
   Emit = TRUE
+  CheckDump = FALSE
